@@ -70,7 +70,7 @@ PROPS = {
         'not_decided': ['Python parsing semantics of the produced text beyond the enumerated cases'],
     },
     'C05': {
-        'families': ['contracts.sigdiff', 'contracts.sigdefaults', 'contracts.sigsim', 'contracts.native'],
+        'families': ['contracts.sigdiff', 'contracts.sigdefaults', 'contracts.sigsim', 'contracts.sigcontainers', 'contracts.native'],
         'level': 'proof',
         'technique': 'contract-based deductive verification + solver-checked lemmas over the contracts; bounded native stand-in for the closure clause',
         'text': 'FieldSignature.get_attr_value/__eq__/diff against abstract views (diff lists exactly the attributes whose '
@@ -96,7 +96,7 @@ PROPS = {
         'not_decided': ['whole-history clauses (interleaved management commands)', 'EvolveAppTask.prepare branch selection (in progress)'],
     },
     'C15': {
-        'families': ['contracts.deletion', 'contracts.sigsim', 'contracts.native'],
+        'families': ['contracts.deletion', 'contracts.sigsim', 'contracts.sigcontainers', 'contracts.native'],
         'level': 'proof',
         'technique': 'contract-based deductive verification: whole-view frame postconditions, VCs from the real AST, z3/cvc5',
         'text': 'DeleteModel.simulate removes exactly the named model of the simulated app and leaves every other app entry and the '
@@ -108,7 +108,7 @@ PROPS = {
         'not_decided': ['actual table list and rows of the database after purge/delete'],
     },
     'C11': {
-        'families': ['contracts.refs', 'contracts.native'],
+        'families': ['contracts.refs', 'contracts.sigcontainers', 'contracts.native'],
         'level': 'proof',
         'technique': 'contract-based deductive verification: nested loop invariants over the three signature levels, VCs from the real AST, z3/cvc5',
         'text': 'Reference-rewrite postconditions of RenameModel.simulate and RenameAppLabel.simulate: after the rename no relation '
@@ -119,7 +119,7 @@ PROPS = {
         'not_decided': ['that database foreign keys point at the renamed table/column and PRAGMA foreign_key_check passes'],
     },
     'C12': {
-        'families': ['contracts.sigsim', 'contracts.sigdefaults'],
+        'families': ['contracts.sigsim', 'contracts.sigdefaults', 'contracts.sigcontainers'],
         'level': 'proof',
         'technique': 'contract-based deductive verification: raising postconditions + gate obligation, VCs from the real AST, z3/cvc5',
         'text': 'Gate: _check_simulation returns True only with an empty residual diff, False only when simulation is impossible, '
